@@ -49,6 +49,13 @@ def replay(prop, res, path):
     for it in items:
         if prop in ITEM_CHECKS:
             ITEM_CHECKS[prop](res, it)
+    if isinstance(body, dict) and "failing_inputs" in body and not res.failures:
+        # the recorded input is of a kind that only the full run knows how to rebuild (a call sequence, an interleaving point, a probe of
+        # the rating classes): repeat the run that found it, with its seed
+        if body.get("seed") is not None:
+            res.seed = body["seed"]
+        res.notes.append("replay: the recorded input did not fail when re-evaluated on its own; the whole check was repeated with the recorded seed %r" % body.get("seed"))
+        CHECKS[prop](res)
 
 
 def matches_known(k, f):
